@@ -343,6 +343,10 @@ class C01(object):
             n = case['n']
             outsiders.append(tuple([9] * n))
             outsiders.append(tuple([9] * (n + 1)))
+            if space and not scalar:
+                # wrong length, every symbol a valid one: a prefix of a member, a member extended by its last symbol
+                m0 = tuple(space[0])
+                outsiders += [m0[:-1], m0 + m0[-1:], m0 + m0]
             for cand in outsiders:
                 if cand in set(space):
                     continue
